@@ -786,12 +786,22 @@ func ext۰regexp۰ReplaceAllString(fr *frame, args []value) value {
 
 func ext۰sort۰Strings(fr *frame, args []value) value {
 	x := args[0].([]value)
+	allc := true
 	for _, e := range x {
 		if _, ok := e.(string); !ok {
-			fr.i.w.unsupported("sort.Strings on symbolic strings")
+			allc = false
 		}
 	}
-	sort.Slice(x, func(i, j int) bool { return x[i].(string) < x[j].(string) })
+	if allc {
+		sort.Slice(x, func(i, j int) bool { return x[i].(string) < x[j].(string) })
+		return nil
+	}
+	// symbolic elements: insertion sort, every comparison a solver-decided branch
+	for i := 1; i < len(x); i++ {
+		for j := i; j > 0 && fr.i.w.truth(strLess(x[j], x[j-1])); j-- {
+			x[j], x[j-1] = x[j-1], x[j]
+		}
+	}
 	return nil
 }
 
